@@ -6,6 +6,7 @@ python3-vt -m lsa selftest <ID>|all [--jobs N]
 from __future__ import annotations
 
 import argparse
+import ast
 import importlib
 import os
 import sys
@@ -40,6 +41,19 @@ def run_rules(prop: str, repo_root: str, tier: str) -> Context:
                                      f"`{mn.group(2)}` whose body the rules interpret", False,
                    unproven=True, detail=str(e), stmt=f"closure {mn.group(2)} vanished")
             ctx.rule("R0", "every closure a rule interprets is defined by its factory.")
+            ctx.min_failures.clear()
+            return ctx
+        mf = re.match(r"function (\S+)\.(\w+) not found", str(e))
+        if mf and mf.group(1) in repo.modules and mf.group(2) in repo.modules[mf.group(1)].assigns:
+            # the name is still bound in its module, but no longer by a `def` (e.g. built
+            # with functools.partial): what it does now is not established
+            mi_ = repo.modules[mf.group(1)]
+            ctx.ob(f"{prop}.R0", mi_.name, f"{mf.group(1)}.{mf.group(2)} is a function whose body "
+                                           f"the rules interpret", False, unproven=True,
+                   detail=f"bound by an assignment now: "
+                          f"{ast.unparse(mi_.assigns[mf.group(2)])[:100]}",
+                   stmt=f"{mf.group(2)} is no longer a def")
+            ctx.rule("R0", "every function a rule interprets is defined by a def.")
             ctx.min_failures.clear()
             return ctx
         if not (m and m.group(1) in repo.classes):
